@@ -15,6 +15,7 @@ import contextlib
 import inspect
 import os
 import posixpath
+import shlex
 import shutil
 import tempfile
 
@@ -396,7 +397,8 @@ def _spell(r, target: str, frm: str, L: ApiLayout) -> str:
         return plain.replace("/", "//", 1) if "/" in plain else "././" + plain
     if k < 0.92:
         return BASE + "/" + target
-    return posixpath.join(posixpath.relpath("/", "/" + frm), "..", "..", target)  # climbs above the base and beyond /
+    # climb to the base, far beyond `/`, and come back down through the absolute name of the base
+    return posixpath.relpath("/", "/" + frm) + "/.." * 8 + BASE + "/" + target
 
 
 def gen_api_case(r, L: ApiLayout) -> dict:
@@ -500,7 +502,8 @@ def make_client():
 
 
 def _is_dirlike(L, case, p, frm_abs) -> bool:
-    return p.endswith("/") or os.path.isdir(os.path.join(frm_abs, p))
+    """What `_check_no_directories` rejects (the API normalizes lexically before it looks at the disk)."""
+    return p.endswith("/") or os.path.isdir(posixpath.normpath(os.path.join(frm_abs, p)))
 
 
 def run_api_case(L: ApiLayout, case: dict) -> list[dict]:
@@ -556,10 +559,10 @@ def run_api_case(L: ApiLayout, case: dict) -> list[dict]:
         exc = None
         try:
             if w == "run":
-                api.run(f"{exe} arg", inp=inp, out=out, vol=vol, workdir=wd)
+                api.run(f"{shlex.quote(exe)} arg", inp=inp, out=out, vol=vol, workdir=wd)
                 exp = (([(exe, "translate")] if "/" in exe and not exe.startswith("/") else []) + tr(inp), tr(out), tr(vol))
             elif w == "plan":
-                api.plan(f"{exe} arg", inp=inp, out=out, vol=vol, workdir=wd)
+                api.plan(f"{shlex.quote(exe)} arg", inp=inp, out=out, vol=vol, workdir=wd)
                 exp = ([(exe, "translate")] + tr(inp), tr(out), tr(vol))
             elif w == "script":
                 api.script(exe, inp=inp, out=out, vol=vol, workdir=wd)
@@ -592,14 +595,12 @@ def run_api_case(L: ApiLayout, case: dict) -> list[dict]:
             else:
                 add("copy", "to", "cwd", True, [], error=repr(exc), unexpected=False)
         else:
-            bad_exe = "/" not in exe or exc is not None and type(exc).__name__ in ("PathError",) and \
-                not dirlike and w in ("plan", "script", "call") and False
             if last("define_step") is not None:
                 define_step_groups(w, exp[0], exp[1], exp[2], tr([wd]), exc, dirlike)
             else:
                 # wrappers also reject an executable without a separator; only a rejection of ordinary
                 # arguments is unexpected
-                exe_dir = os.path.isdir(os.path.join(wd_abs, exe))
+                exe_dir = os.path.isdir(posixpath.normpath(os.path.join(wd_abs, exe)))
                 add(w, "to", "wd", True, [], error=repr(exc), unexpected=not (dirlike or "/" not in exe or exe_dir))
         # amend()
         client.calls.clear()
@@ -623,7 +624,7 @@ def run_api_case(L: ApiLayout, case: dict) -> list[dict]:
         from stepup.core.nglob import NamedGlob
         lits = [L.sub(p) for p in case["lits"]]
         pattern = L.sub(case["pattern"])
-        ng = NamedGlob(pattern)
+        ng = NamedGlob(str(_keep_affixes(pattern, Path.normpath)))  # `subs_env` normalizes, keeping the affixes
         ng.glob()
         matches = [str(m) for m in ng.files()]
         exc = None
@@ -634,7 +635,7 @@ def run_api_case(L: ApiLayout, case: dict) -> list[dict]:
         call = last("declare_static")
         if call is not None:
             _job, tr_trees, tr_files, tr_patterns = call[1]
-            is_dir = lambda p: os.path.isdir(os.path.join(cwd_abs, p))  # noqa: E731
+            is_dir = lambda p: os.path.isdir(posixpath.normpath(os.path.join(cwd_abs, p)))  # noqa: E731
             add("static.trees", "to", "cwd", False, tr([p for p in lits + matches if is_dir(p)]), tr_trees)
             add("static.files", "to", "cwd", False, tr([p for p in lits + matches if not is_dir(p)]), tr_files)
             if len(tr_patterns) == 1:
@@ -787,8 +788,6 @@ def check_api_case(L: ApiLayout, case: dict) -> list[tuple[str, str, object, obj
                     given_eff = given
                 full = posixpath.normpath(os.path.join(frm, given_eff))
                 if given_eff.startswith("/") or wd_abs_arg:
-                    ref = "/" + full.lstrip("/") if full.startswith("//") and not full.startswith("///") and False \
-                        else full
                     ref = posixpath.normpath(given_eff) if given_eff.startswith("/") else full
                 else:
                     ref = posixpath.relpath(full, root)
@@ -813,8 +812,6 @@ def check_api_case(L: ApiLayout, case: dict) -> list[tuple[str, str, object, obj
             bad.append((f"api-{scope}-paths-lost", f"{scope}: the number of paths handed {what_dir} differs",
                         got, expected))
             continue
-        for (given, _t), ref, rec in zip(g["items"], expected, got) if g["ordered"] else ():
-            pass
         # same file, decided by the file system (for ordered groups item by item, else as sets of locations)
         if g["direction"] == "to":
             meant = [loc(frm, given) for given, _ in g["items"]]
